@@ -402,7 +402,7 @@ def explore_no_driver(prop, tier, seed, work):
 def search_failing_input(prop, seed, work, known_keys):
     """the proof or the correspondence broke: look harder for an input on which the implementation fails the property"""
     found = []
-    for extra in (1, 2, 3):
+    for extra in (1, 2):
         sub = os.path.join(work, 'search%d' % extra)
         os.makedirs(sub, exist_ok=True)
         agg = explore(prop, 'search', seed * 7919 + extra, sub)
